@@ -283,6 +283,19 @@ def run(ck):
     ok = 'process_args = inspect.getfullargspec(processor).args' in src and 'processor(**process_args_values).run_system(system)' in src and \
         'for processor in self.processor_list:' in src and not any(isinstance(n, (ast.Break, ast.Continue, ast.Return)) for l in ast.walk(rsys) if isinstance(l, ast.For) for n in ast.walk(l))
     ck.ob('KW-wiring', gp.loc(rsys), ok, 'every processor of the list is constructed from the matching keywords and run on the system, in order', key='KW-wiring|run')
+    # every processor runs for every contact list (an empty list still needs its sites): no return before or inside the loop
+    rets_ = [r_ for r_ in walk_local(rsys) if isinstance(r_, ast.Return)]
+    ck.ob('KW-wiring', gp.loc(rsys), len(rets_) == 1 and rsys.body[-1] is rets_[0], 'the pipeline has no early exit: its only return is the last statement ({} return(s))'.format(len(rets_)),
+          key='KW-wiring|run|no-early-exit')
+    # the site types are `<molecule type>_<resid>` with the *renumbered* residue numbers (unique in the merged molecule): the input numbering (-resid input) is
+    # put back only once, after every step that names or looks up residues
+    cli_entry = cli.func('entry')
+    restores = [c for c in walk_local(cli_entry) if isinstance(c, ast.Call) and call_name(c) in ('nx.set_node_attributes', 'networkx.set_node_attributes')
+                and len(c.args) >= 3 and try_fold(c.args[2], default=None) == 'resid']
+    gocalls = [c for c in walk_local(cli_entry) if isinstance(c, ast.Call) and call_attr(c) == 'run_system' and 'GoPipeline' in u(c.func.value)]
+    ok = len(restores) == 1 and len(gocalls) == 1 and restores[0].lineno > gocalls[0].lineno
+    ck.ob('ORD-resid-restore', cli.loc(restores[0]) if restores else 'bin/martinize2', ok, 'the input residue numbers are restored in one place, after the Go pipeline ran '
+          '({} restoring site(s))'.format(len(restores)), key='ORD-resid-restore')
     # the keywords handed to a processor: every given option the constructor accepts, with its value -- selected by name only (0 and '' are values)
     pav = single_def(rsys, 'process_args_values')
     ok = isinstance(pav, ast.DictComp) and len(pav.generators) == 1
